@@ -28,7 +28,7 @@ shutil.copy(f"{out}/README.md", f"{dst}/AGENT_README.md")
 base = os.popen(f"git -C /tmp/wt/{pid} rev-parse HEAD").read().strip()
 meta = {
     "property": pid[:3],
-    "round": {"b": 2, "c": 3, "d": 4}.get(pid[-1], 1),
+    "round": {"b": 2, "c": 3, "d": 4, "e": 5}.get(pid[-1], 1),
     "breaks": readme.split("\n\n")[0][:600],
     "needs_to_manifest": "see AGENT_README.md (section on the condition needed); summary: " + " ".join(
         l.strip() for l in readme.splitlines() if re.search(r"(?i)manifest|trigger|condition", l))[:700],
